@@ -166,8 +166,9 @@ class _Patch:
 # non-ASCII text, nested containers, huge and negative numbers (all pairwise different in every representation
 # the code uses: Python equality, type, JSON text).
 STORE_VALUES = [0, 1, 2, 3, 4, 5, 6, "", {}, [], False, None, "Z\u00fcrich", ["j\u00f6rg", "zo\u00eb"],
-                {"k": "\u6a5f\u623f-1"}, -2 ** 63, 10 ** 30, "null", "0", True, "\u00e9\u00e8", [0], {"": ""}]
-CACHE_VALUES = [0, 1, 2, 3, 4, 5, 6, "", {}, [], False, "Z\u00fcrich", (), "None", -1, True]
+                {"k": "\u6a5f\u623f-1"}, -2 ** 63, 10 ** 30, "null", "0", True, "\u00e9\u00e8", [0], {"": ""},
+                " ", "\t\n", "x" * 255, "y" * 256, "z" * 4097, 2 ** 63 - 1, 0.5, [[[[[[[[[[[[[[[[[1]]]]]]]]]]]]]]]]]]
+CACHE_VALUES = [0, 1, 2, 3, 4, 5, 6, "", {}, [], False, "Z\u00fcrich", (), "None", -1, True, " ", "x" * 4097, 0.0]
 CACHE_KEYS = {7: "", 8: "\u00f6", 9: "9", 10: (1, 2), 11: b"k", 12: -1}      # other keys: the natural itself
 
 
